@@ -291,7 +291,7 @@ class Material(MutableMapping[str, str]):
             name = param.name
             value = param.value
             # A bare token cannot begin with / or #, those start a comment or directive.
-            if name.startswith(('/', '#')) or any(c in BARE_DISALLOWED for c in name):
+            if not name or name.startswith(('/', '#')) or any(c in BARE_DISALLOWED for c in name):
                 name = f'"{name}"'
             if not value or value.startswith(('/', '#')) or any(c in BARE_DISALLOWED for c in value):
                 value = f'"{value}"'
